@@ -13,9 +13,9 @@ import (
 type ErrKind int
 
 const (
-	KindNonNil      ErrKind = iota // paths on which the error is not nil
-	KindOtherError                 // paths on which the error is neither nil nor io.EOF
-	KindSuccess                    // paths on which the error is nil
+	KindNonNil     ErrKind = iota // paths on which the error is not nil
+	KindOtherError                // paths on which the error is neither nil nor io.EOF
+	KindSuccess                   // paths on which the error is nil
 )
 
 type ErrTrack struct {
